@@ -452,7 +452,7 @@ class Bec2File:
 
     def pack_auth_blocks(self, ext_encryptors: Iterable[Encryptor] = ()) -> bytes:
         # every block searches the encryptors: a one-shot iterator must not be used up by the first one
-        ext_encryptors = list(ext_encryptors)
+        ext_encryptors = list(ext_encryptors or ())
         packed_auth_blocks = bytes()
         for auth_block in self.auth_blocks.values():
             auth_block_raw = auth_block.pack(self.session_key, ext_encryptors)
@@ -489,7 +489,7 @@ class Bec2File:
     def unpack_auth_blocks(
         cls, raw_rdr: BytesIO, ext_encryptors: Iterable[Encryptor]
     ) -> tuple[Iterable[AuthBlock], Optional[bytes]]:
-        ext_encryptors = list(ext_encryptors)
+        ext_encryptors = list(ext_encryptors or ())
         common_session_key = None
         auth_blocks = []
         while True:
